@@ -76,17 +76,38 @@ func checkParameterClosure(r *Run) {
 					}
 					n++
 					want := strings.ReplaceAll(exprString(r.Fset, idExpr), " ", "") + ".String()"
+					// a store under the same key that runs whenever the construction ran and no error was met afterwards: every
+					// condition that controls the store also controls the construction, or is an "error is nil" test (nested
+					// else-arms and guard clauses give the same conditions)
 					stored := false
-					ast.Inspect(top, func(y ast.Node) bool {
+					constructConds := controlConds(fd.Body, x)
+					ast.Inspect(fd.Body, func(y ast.Node) bool {
 						as, ok := y.(*ast.AssignStmt)
-						if !ok {
+						if !ok || stored {
 							return true
 						}
 						for _, l := range as.Lhs {
 							if ix, ok := ast.Unparen(l).(*ast.IndexExpr); ok {
 								if _, isMap := info.Types[ix.X].Type.Underlying().(*types.Map); isMap {
 									if strings.ReplaceAll(exprString(r.Fset, ix.Index), " ", "") == want {
-										stored = true
+										unconditional := true
+										for _, lit := range controlConds(fd.Body, as) {
+											shared := false
+											for _, c := range constructConds {
+												if c.Expr == lit.Expr && c.Neg == lit.Neg {
+													shared = true
+												}
+											}
+											if cls, negated := classifyAtom(info, lit.Expr); cls == atomErrNonNil && lit.Neg != negated {
+												shared = true // "err == nil"
+											}
+											if !shared {
+												unconditional = false
+											}
+										}
+										if unconditional {
+											stored = true
+										}
 									}
 								}
 							}
